@@ -36,6 +36,8 @@ pub struct RunResult {
     pub wlen: u32,
     pub slen: u32,
     pub wait_status: i32,
+    /// CPU time (user + system) the simulated process used, in milliseconds
+    pub cpu_ms: u64,
 }
 
 impl RunResult {
@@ -167,11 +169,25 @@ pub fn run_one(spec: &RunSpec, replay: Option<(Vec<u32>, Vec<u32>)>) -> RunResul
                 sa.sa_sigaction = if s == libc::SIGPIPE { libc::SIG_IGN } else { libc::SIG_DFL };
                 libc::sigaction(s, &sa, std::ptr::null_mut());
             }
+            // a simulated process that burns CPU without ever reaching a scheduling point is
+            // stopped by the kernel after 4 s of its own CPU time (load-independent, unlike the
+            // wall-clock watchdog): SIGXCPU, classified like a watchdog hit
+            let lim = libc::rlimit { rlim_cur: 4, rlim_max: 5 };
+            libc::setrlimit(libc::RLIMIT_CPU, &lim);
+            // observation only: where a fatal memory fault happened (one shot, then the default
+            // action kills the process as it would have anyway)
+            for s in [libc::SIGSEGV, libc::SIGBUS] {
+                let mut sa: libc::sigaction = std::mem::zeroed();
+                sa.sa_sigaction = fault_probe as usize;
+                sa.sa_flags = libc::SA_SIGINFO | libc::SA_RESETHAND | libc::SA_NODEFER;
+                libc::sigaction(s, &sa, std::ptr::null_mut());
+            }
         }
         child_main(spec, replay);
     }
     let mut status: i32 = 0;
     let mut timed_out = false;
+    let mut ru: libc::rusage = unsafe { std::mem::zeroed() };
     // Wait for the child with SIGCHLD (blocked in this process, fetched with sigtimedwait): a pidfd
     // poll misses the exit of a multi-threaded child whose leader dies first on some kernels, which
     // cost a full watchdog period per miss.
@@ -183,7 +199,7 @@ pub fn run_one(spec: &RunSpec, replay: Option<(Vec<u32>, Vec<u32>)>) -> RunResul
         libc::sigemptyset(&mut set);
         libc::sigaddset(&mut set, libc::SIGCHLD);
         loop {
-            let r = libc::waitpid(pid, &mut status, libc::WNOHANG);
+            let r = libc::wait4(pid, &mut status, libc::WNOHANG, &mut ru);
             if r == pid {
                 break;
             }
@@ -204,7 +220,7 @@ pub fn run_one(spec: &RunSpec, replay: Option<(Vec<u32>, Vec<u32>)>) -> RunResul
                         .status();
                 }
                 libc::kill(pid, libc::SIGKILL);
-                libc::waitpid(pid, &mut status, 0);
+                libc::wait4(pid, &mut status, 0, &mut ru);
                 break;
             }
             let rem = (limit_ms - el).min(500);
@@ -212,7 +228,9 @@ pub fn run_one(spec: &RunSpec, replay: Option<(Vec<u32>, Vec<u32>)>) -> RunResul
             libc::sigtimedwait(&set, std::ptr::null_mut(), &ts);
         }
     }
-    let mut r = classify(shm::get(), status, timed_out);
+    let cpu_limit_hit = libc::WIFSIGNALED(status) && (libc::WTERMSIG(status) == libc::SIGXCPU || (libc::WTERMSIG(status) == libc::SIGKILL && !timed_out));
+    let mut r = classify(shm::get(), status, timed_out || cpu_limit_hit);
+    r.cpu_ms = (ru.ru_utime.tv_sec as u64 + ru.ru_stime.tv_sec as u64) * 1000 + (ru.ru_utime.tv_usec as u64 + ru.ru_stime.tv_usec as u64) / 1000;
     // a violation of another property than the one being checked is not this check's to report
     if let Verdict::Violation { prop, oracle, msg } = &r.verdict {
         if prop != spec.prop.id {
@@ -236,6 +254,7 @@ fn classify(sh: &Shm, status: i32, timed_out: bool) -> RunResult {
         wlen: sh.wlen,
         slen: sh.slen,
         wait_status: status,
+        cpu_ms: 0,
     };
     let exited = libc::WIFEXITED(status);
     let code = if exited { libc::WEXITSTATUS(status) } else { -1 };
@@ -253,7 +272,7 @@ fn classify(sh: &Shm, status: i32, timed_out: bool) -> RunResult {
     if timed_out {
         let hp = sigs(&sh.hang_prop);
         if !hp.is_empty() {
-            return mk(viol(hp, "hang", format!("the simulated process hung (watchdog) at progress marker {}", sh.progress)));
+            return mk(viol(hp, "hang", format!("the simulated process hung (watchdog or CPU limit without reaching a scheduling point) at progress marker {}", sh.progress)));
         }
         let ev = sh.events();
         let tail: Vec<String> = ev.iter().rev().take(14).rev().map(|e| format!("{}:T{}d{} k{} {:x}/{:x}", e.step, e.tid, e.depth, e.kind, e.a, e.b)).collect();
@@ -283,6 +302,15 @@ fn classify(sh: &Shm, status: i32, timed_out: bool) -> RunResult {
     if signaled && tsig == libc::SIGABRT && sh.panic_in_handler != 0 {
         return mk(viol("C03".into(), "panic-in-handler", format!("panic inside a signal delivery aborted the process: {}", sigs(&sh.panic_msg))));
     }
+    if signaled && tsig == libc::SIGSEGV && sh.fault_seen != 0 && sh.fault_in_handler > 0 && sh.fault_addr <= 1 && sh.fault_pc == sh.fault_addr {
+        // an instruction fetch at address 0 or 1 during a delivery: SIG_DFL / SIG_IGN was called
+        // as if it were a handler
+        return mk(viol(
+            "C04".into(),
+            "special-disposition-called",
+            format!("during a delivery the process jumped to address {} ({}), i.e. a previous default/ignore disposition was invoked as a handler; the process died with SIGSEGV at step {}", sh.fault_addr, if sh.fault_addr == 1 { "SIG_IGN" } else { "SIG_DFL" }, sh.steps),
+        ));
+    }
     if signaled && (tsig == libc::SIGSEGV || tsig == libc::SIGBUS) {
         let cp = sigs(&sh.crash_prop);
         if !cp.is_empty() {
@@ -304,6 +332,28 @@ fn classify(sh: &Shm, status: i32, timed_out: bool) -> RunResult {
         sh.progress,
         sigs(&sh.panic_msg)
     )))
+}
+
+extern "C" fn fault_probe(_sig: i32, info: *mut libc::siginfo_t, ctx: *mut libc::c_void) {
+    if !shm::is_set() {
+        return;
+    }
+    let sh = shm::get();
+    if sh.fault_seen == 0 {
+        sh.fault_seen = 1;
+        sh.fault_addr = unsafe { (*info).si_addr() } as u64;
+        sh.fault_in_handler = sh.in_handler_now;
+        #[cfg(target_arch = "x86_64")]
+        {
+            let uc = ctx as *const libc::ucontext_t;
+            sh.fault_pc = unsafe { (*uc).uc_mcontext.gregs[libc::REG_RIP as usize] } as u64;
+        }
+        #[cfg(not(target_arch = "x86_64"))]
+        {
+            let _ = ctx;
+            sh.fault_pc = u64::MAX;
+        }
+    }
 }
 
 fn runs_for(prop: &Prop, tier: Tier) -> u64 {
@@ -404,9 +454,16 @@ fn worker(prop: &'static Prop, tier: Tier, seed: u64, w: usize, nw: usize, total
         samples: Vec::new(),
         stopped_by_cap: false,
     };
+    let mut cpu_max_ms = 0u64;
     let mut run = w as u64;
     while run < total {
-        if out.runs % 64 == 0 && t0.elapsed().as_secs_f64() > cap {
+        if t0.elapsed().as_secs_f64() > cap {
+            out.stopped_by_cap = true;
+            break;
+        }
+        // enough evidence that the check fails: do not spend the budget collecting more of it
+        // (a violation that hangs the simulated process costs a watchdog period per run)
+        if out.violations.len() + out.harness.len() >= 6 {
             out.stopped_by_cap = true;
             break;
         }
@@ -416,6 +473,9 @@ fn worker(prop: &'static Prop, tier: Tier, seed: u64, w: usize, nw: usize, total
         out.steps_total += r.steps;
         out.steps_max = out.steps_max.max(r.steps);
         out.switches_total += r.switches;
+        if matches!(r.verdict, Verdict::Ok) {
+            cpu_max_ms = cpu_max_ms.max(r.cpu_ms);
+        }
         let sh = shm::get();
         for i in 0..shm::N_COUNTERS {
             out.counters[i] += sh.counters[i];
@@ -461,6 +521,7 @@ fn worker(prop: &'static Prop, tier: Tier, seed: u64, w: usize, nw: usize, total
         "foreign_samples": out.foreign_samples.iter().map(|(r,p,o,m)| json!({"run": r, "prop": p, "oracle": o, "msg": m})).collect::<Vec<_>>(),
         "samples": out.samples,
         "stopped_by_cap": out.stopped_by_cap,
+        "cpu_max_ms": cpu_max_ms,
     });
     std::fs::write(format!("{}/w{}.json", dir, w), serde_json::to_vec(&v).unwrap()).unwrap();
     let mut hb: Vec<u8> = Vec::with_capacity(out.hashes.len() * 8);
@@ -797,6 +858,7 @@ pub fn cmd_check(id: &str, tier_s: &str) -> i32 {
     let mut foreign_samples: Vec<Value> = Vec::new();
     let mut samples: Vec<Value> = Vec::new();
     let mut capped = false;
+    let mut cpu_max_ms = 0u64;
     for w in 0..nw {
         let b = std::fs::read(format!("{}/w{}.json", dir, w)).expect("worker output");
         let v: Value = serde_json::from_slice(&b).expect("worker json");
@@ -808,6 +870,7 @@ pub fn cmd_check(id: &str, tier_s: &str) -> i32 {
         steps_max = steps_max.max(v["steps_max"].as_u64().unwrap());
         switches_total += v["switches_total"].as_u64().unwrap();
         capped |= v["stopped_by_cap"].as_bool().unwrap_or(false);
+        cpu_max_ms = cpu_max_ms.max(v["cpu_max_ms"].as_u64().unwrap_or(0));
         for (i, c) in v["counters"].as_array().unwrap().iter().enumerate() {
             counters[i] += c.as_u64().unwrap();
         }
@@ -923,6 +986,7 @@ pub fn cmd_check(id: &str, tier_s: &str) -> i32 {
             "seeds_per_hour": runs as f64 / wall.max(0.001) * 3600.0,
             "workers": nw,
             "stopped_by_time_cap": capped,
+            "cpu_ms_max_of_a_passing_run_limit_4000": cpu_max_ms,
             "faults_and_probes_fired": named(props::COMMON_PROBES),
             "property_probes": named(prop.probes),
             "coverage_holes_probe_at_zero": holes,
